@@ -373,7 +373,7 @@ func TokRule(name, tok string) ref.SRule {
 // ---------------------------------------------------------------------------------------
 // Generator for the rule-free fragment (C01): optional / nullable / type "any".
 
-var KeyPoolC01 = []string{"a", "b", "c", "id", "", "a\"b", "é", "@x", "k\\", "x y", "\n"}
+var KeyPoolC01 = []string{"a", "b", "c", "id", "", "a\"b", "é", "@x", "k\\", "x y", "\n", "say \"hi\"", "\"", "\\\"", "q\\\\"}
 
 type ShapeOpts struct {
 	Depth int
